@@ -11,7 +11,8 @@ Local Open Scope Z_scope.
 (** ** ghost sequences of a trace *)
 Definition vpush_rec (e : ev) : list (Z * Z) :=
   match e with
-  | EvCli n [size; seed] => if String.eqb n "vpush_ok" then [(size, seed)] else []
+  | EvCli n args =>
+      if String.eqb n "vpush_ok" then match args with [size; seed] => [(size, seed)] | _ => [] end else []
   | _ => []
   end.
 Definition vpop_cnt (e : ev) : nat :=
@@ -577,7 +578,7 @@ Section RingV.
       destruct (rsz_bounds size ltac:(lia)). split; [auto|]. split.
       - rewrite idx_mod by (try apply Hcap; lia). exact S1.
       - apply u64_small. lia. }
-    destruct Hb as (Hb1 & Hb2 & Hb3). rewrite Hb1, Hb2, crs_eq, Hb3 by exact Hsz.
+    destruct Hb as (Hb1 & Hb2 & Hb3). rewrite Hb2, Hb1, crs_eq, Hb3 by exact Hsz.
     clear g a tr I Hv Hb1 Hb2.
     cbn [Conc.safe]. intros g a tr I Hv. cbn [view] in Hv. unfold av_pb_st_back. cbn [fst snd].
     exists (mkA (segs a ++ [SRec size seed]) (mkL pf (b + rsz size) (R - rsz size) PIdle) (cv a)).
@@ -621,7 +622,6 @@ Section RingV.
                          (mkL pf (b + tail) (R - tail) (PRec size seed))); auto;
         cbn [segs pv cv lv_loc lv_mine lv_rem lv_ph]; try lia.
       + intros f0 b0 s0 Hin. rewrite C in Hin. apply j_fails0. exact Hin.
-      + intros x Hx. apply E. rewrite Hf1, Hb1 in Hx. rewrite Hf1. exact Hx.
       + unfold pph_ok. cbn [lv_loc lv_mine lv_rem lv_ph]. rewrite B. split; [exact F|]. lia.
     - cbn [view pv]. apply safe_push_back_op; [exact Hsz|lia].
   Qed.
@@ -647,17 +647,560 @@ Section RingV.
     destruct j_pph0 as (S1 & S2 & S3 & S4 & S5 & S6). pose proof cap_pos as Hc.
     pose proof (Z.mod_pos_bound (v_back g) cap ltac:(lia)) as Mb.
     set (tail := cap - v_back g mod cap) in *.
-    assert (Hrng : 0 <= v_front g + cap - (v_back g + tail) < two64).
-    { (* the first space test passed for some pfront_ <= front_, and tail < real size *)
-      destruct (segs_len_nonneg _ _ _ j_lay0) as (N1 & _ & _). split; [|lia].
-      (* back + tail is the next multiple of cap; front + cap - that >= 0 because back - front <= cap ... *)
-      assert (v_back g + tail <= v_front g + cap \/ v_front g + cap < v_back g + tail) as [H|H] by lia; [lia|].
-      exfalso.
-      (* front + cap < back + tail, with tail = cap - back mod cap: front < back - back mod cap *)
-      (* then the segment containing the buffer end would cross it; use: front <= back and front + cap >= back,
-         plus no segment crosses a multiple of cap *)
-      give_up. }
-    give_up.
-  Abort.
+    assert (Hrng : 0 <= v_front g + cap - (v_back g + tail) < two64) by lia.
+    destruct (space_lt cap (v_front g) (v_back g + tail) (rsz size)) eqn:Hs; cbn [fst snd]; pose proof Hs as Hs0.
+    - apply space_lt_true in Hs; [|exact Hrng].
+      exists (mkA (segs a) (mkL (v_front g) (v_back g) R PIdle) (cv a)).
+      split; [|split; [apply frame_p|]].
+      + rewrite tag2. apply Inv_neutral; try reflexivity; [apply Inv_acc|apply Phi_trivial; discriminate].
+        apply (Inv_p_write g (log_fail g size) a tr (mkL (v_front g) (v_back g) R PIdle)); auto;
+          rewrite ?Hv; cbn [log_fail v_fails lv_loc lv_mine lv_rem lv_ph]; try lia.
+        * intros f0 b0 s0 [Hin|Hin]; [|apply j_fails0; exact Hin].
+          inversion Hin; subst. apply fail_cond_second; fold tail; lia.
+        * unfold pph_ok. cbn. exact Logic.I.
+      + rewrite Hs0. cbn. do 2 eexists. split; [reflexivity|lia].
+    - apply space_lt_false in Hs; [|exact Hrng].
+      exists (mkA (segs a) (mkL (v_front g) (v_back g) R (PTailS size)) (cv a)).
+      split; [|split; [apply frame_p|]].
+      + rewrite tag1. apply Inv_acc.
+        apply (Inv_p_write g g a tr (mkL (v_front g) (v_back g) R (PTailS size))); auto;
+          rewrite ?Hv; cbn [lv_loc lv_mine lv_rem lv_ph]; try lia.
+        unfold pph_ok. cbn [lv_loc lv_mine lv_rem lv_ph]. fold tail. repeat split; try lia; try exact S6.
+      + rewrite Hs0. cbn [view pv]. eapply Conc.safe_weaken; [|apply safe_D; [exact Hsz|exact HR0]].
+        intros r l (-> & H). exact H.
+  Qed.
+
+  Lemma tail_ge8 b : 0 <= b -> b mod 8 = 0 -> 8 <= cap - b mod cap /\ (cap - b mod cap) mod 8 = 0 /\ cap - b mod cap <= cap.
+  Proof.
+    intros Hb H8. pose proof cap_pos as Hc. pose proof (Z.mod_pos_bound b cap ltac:(lia)) as Mb.
+    assert (Hm : (cap - b mod cap) mod 8 = 0) by (rewrite Zminus_mod, cap8, off_mod8 by exact H8; reflexivity).
+    pose proof (Z.div_mod (cap - b mod cap) 8 ltac:(lia)). lia.
+  Qed.
+
+  (** the code of back() after a successful first space test with pfront_ = [pf], and what follows *)
+  Lemma post_space_step g a tr pf0 pf R size seed R0 :
+    Inv g a tr -> pv a = mkL pf0 (v_back g) R PIdle -> pf0 <= pf <= v_front g ->
+    v_back g + rsz size <= pf + cap ->
+    1 <= size <= cap -> rsz size <= cap -> rsz size + cap <= R -> R0 <= R - rsz size - cap ->
+    exists l', Inv (post_space exp2 cap g (v_back g) size seed) (mkA (segs a) l' (cv a)) tr /\
+               safe 0 (after_space exp2 cap (v_back g) pf size seed) l' (fun r l => Qp R0 r l).
+  Proof.
+    intros I Hpv Hpf Hsp Hsz Hrs HR HR0.
+    pose proof I as I'. destruct I'. rewrite Hpv in *. cbn [lv_loc lv_mine lv_rem lv_ph] in *.
+    pose proof cap_pos as Hc. pose proof cap_small as Hcs.
+    assert (Hb0 : 0 <= v_back g) by lia.
+    pose proof (Z.mod_pos_bound (v_back g) cap ltac:(lia)) as Mb.
+    destruct (tail_ge8 (v_back g) Hb0 j_align0) as (T1 & T2 & T3).
+    destruct (rsz_bounds size ltac:(lia)) as (Q1 & Q2 & Q3).
+    unfold post_space, after_space. cbn zeta.
+    rewrite !crs_eq by exact Hsz. rewrite !(idx_mod exp2 cap (v_back g) Hcap Hb0).
+    rewrite !(u64_small (cap - v_back g mod cap)) by (unfold two64; lia).
+    set (tail := cap - v_back g mod cap) in *.
+    destruct (Z.ltb tail (rsz size)) eqn:Ht.
+    - apply Z.ltb_lt in Ht.
+      rewrite !(u64_small (tail - 8)) by (unfold two64; lia).
+      rewrite !(u64_small (v_back g + tail)) by lia.
+      assert (Hv : 0 <= make_tail (tail - 8) < two64).
+      { rewrite make_tail_add by (unfold top_bit; lia). unfold top_bit, two64. lia. }
+      destruct (write_tail g (make_tail (tail - 8))) as (A & B & C & D & E & F); try lia; try assumption.
+      set (g' := write64 cap g (v_back g mod cap) (make_tail (tail - 8))) in *.
+      destruct (space_lt cap pf (v_back g + tail) (rsz size)) eqn:Hs2.
+      + exists (mkL pf (v_back g) R (PTailT size)). split.
+        * apply (Inv_p_write g g' a tr (mkL pf (v_back g) R (PTailT size))); auto;
+            rewrite ?Hpv; cbn [lv_loc lv_mine lv_rem lv_ph]; try lia;
+            try (intros f0 b0 s0 Hin; rewrite C in Hin; apply j_fails0; exact Hin).
+          unfold pph_ok. cbn [lv_loc lv_mine lv_rem lv_ph]. rewrite B. fold tail. repeat split; try lia; try exact F.
+        * apply safe_C; [exact Hsz|exact HR0].
+      + apply space_lt_false in Hs2; [|lia].
+        exists (mkL pf (v_back g) R (PTailS size)). split.
+        * apply (Inv_p_write g g' a tr (mkL pf (v_back g) R (PTailS size))); auto;
+            rewrite ?Hpv; cbn [lv_loc lv_mine lv_rem lv_ph]; try lia;
+            try (intros f0 b0 s0 Hin; rewrite C in Hin; apply j_fails0; exact Hin).
+          unfold pph_ok. cbn [lv_loc lv_mine lv_rem lv_ph]. rewrite B. fold tail. repeat split; try lia; try exact F.
+        * eapply Conc.safe_weaken; [|apply safe_D; [exact Hsz|exact HR0]]. intros r l (-> & H). exact H.
+    - apply Z.ltb_ge in Ht.
+      destruct (write_record g size seed) as (A & B & C & D & E & F); try lia; try assumption.
+      set (g' := write_bytes cap (write64 cap g (v_back g mod cap) size) (v_back g mod cap + 8) (data_bytes size seed)) in *.
+      exists (mkL pf (v_back g) R (PRec size seed)). split.
+      + apply (Inv_p_write g g' a tr (mkL pf (v_back g) R (PRec size seed))); auto;
+          rewrite ?Hpv; cbn [lv_loc lv_mine lv_rem lv_ph]; try lia;
+          try (intros f0 b0 s0 Hin; rewrite C in Hin; apply j_fails0; exact Hin).
+        unfold pph_ok. cbn [lv_loc lv_mine lv_rem lv_ph]. rewrite B. split; [exact F|]. lia.
+      + eapply Conc.safe_weaken; [|apply (safe_push_back_op pf (v_back g) R size seed pf R0); [exact Hsz|lia]].
+        intros r l (-> & H). exact H.
+  Qed.
+
+  (** B: the reload for the first space test *)
+  Lemma safe_vpush_B pf b R size seed R0 :
+    1 <= size <= cap -> rsz size <= cap -> rsz size + cap <= R -> R0 <= R - rsz size - cap ->
+    safe 0 (Act (av_back_ld_front1 exp2 cap b size seed) (fun r2 =>
+              let pf' := fst r2 in
+              if space_lt cap pf' b (rsz size) then Ret pf' else after_space exp2 cap b pf' size seed))
+         (mkL pf b R PIdle) (fun r l => Qp R0 r l).
+  Proof.
+    intros Hsz Hrs HR HR0. cbn [Conc.safe]. intros g a tr I Hv. cbn [view] in Hv.
+    unfold av_back_ld_front1. rewrite crs_eq by exact Hsz.
+    pose proof I as I'. destruct I'. rewrite Hv in *. cbn [lv_loc lv_mine lv_rem lv_ph] in *. subst b.
+    assert (Hrng : 0 <= v_front g + cap - v_back g < two64) by lia.
+    destruct (space_lt cap (v_front g) (v_back g) (rsz size)) eqn:Hs; cbn [fst snd]; pose proof Hs as Hs0.
+    - apply space_lt_true in Hs; [|exact Hrng].
+      exists (mkA (segs a) (mkL (v_front g) (v_back g) R PIdle) (cv a)).
+      split; [|split; [apply frame_p|]].
+      + rewrite tag2. apply Inv_neutral; try reflexivity; [apply Inv_acc|apply Phi_trivial; discriminate].
+        apply (Inv_p_write g (log_fail g size) a tr (mkL (v_front g) (v_back g) R PIdle)); auto;
+          rewrite ?Hv; cbn [log_fail v_fails lv_loc lv_mine lv_rem lv_ph]; try lia;
+          try (unfold pph_ok; cbn; exact Logic.I);
+          try (intros f0 b0 s0 [Hin|Hin]; [inversion Hin; subst; unfold fail_cond; left; lia|apply j_fails0; exact Hin]).
+      + rewrite Hs0. cbn. do 2 eexists. split; [reflexivity|lia].
+    - apply space_lt_false in Hs; [|exact Hrng].
+      destruct (post_space_step g a tr pf (v_front g) R size seed R0 I Hv) as (l' & I1 & S1); try lia.
+      exists (mkA (segs a) l' (cv a)). split; [rewrite tag1; apply Inv_acc; exact I1|].
+      split; [apply frame_p|]. rewrite Hs0. cbn [view pv]. exact S1.
+  Qed.
+
+  Lemma safe_vpush pf b R size seed R0 :
+    1 <= size <= cap -> rsz size <= cap -> rsz size + cap <= R -> R0 <= R - rsz size - cap ->
+    safe 0 (vpush exp2 cap pf size seed) (mkL pf b R PIdle) (fun r l => Qp R0 r l).
+  Proof.
+    intros Hsz Hrs HR HR0. unfold vpush. cbn zeta. rewrite !crs_eq by exact Hsz.
+    cbn [Conc.safe]. intros g a tr I Hv. cbn [view] in Hv.
+    unfold av_back_ld_back. rewrite crs_eq by exact Hsz.
+    pose proof I as I'. destruct I'. rewrite Hv in *. cbn [lv_loc lv_mine lv_rem lv_ph] in *. subst b.
+    assert (Hrng : 0 <= pf + cap - v_back g < two64) by lia.
+    destruct (space_lt cap pf (v_back g) (rsz size)) eqn:Hs; cbn [fst snd]; pose proof Hs as Hs0.
+    - exists a. split; [rewrite tag1; apply Inv_acc; exact I|]. split; [apply frame_refl|].
+      rewrite Hs0. cbn [view]. rewrite Hv. apply safe_vpush_B; assumption.
+    - apply space_lt_false in Hs; [|exact Hrng].
+      destruct (post_space_step g a tr pf pf R size seed R0 I Hv) as (l' & I1 & S1); try lia.
+      exists (mkA (segs a) l' (cv a)). split; [rewrite tag1; apply Inv_acc; exact I1|].
+      split; [apply frame_p|]. rewrite Hs0. cbn [view pv]. exact S1.
+  Qed.
+
+  (** *** consumer *)
+
+  (** what the reads of front() see once [front_ + 8 <= cback_]: the head segment *)
+  Lemma front_found g a tr cb0 f r ph0 cbx ct :
+    Inv g a tr -> cv a = mkL cb0 f r ph0 -> (cbx = cb0 \/ cbx = v_back g) -> f + 8 <= cbx ->
+    (ct = false -> f mod cap = 0) ->
+    (exists t, ct = true /\ vf_read exp2 cap ct g f = ([make_tail (t - 8)], []) /\
+               is_tail (make_tail (t - 8)) = true /\
+               Inv g (mkA (segs a) (pv a) (mkL cbx f r (CTail t))) tr) \/
+    (exists sz seed,
+        vf_read exp2 cap ct g f = (sz :: data_bytes sz seed, [EvCli "vfront_ok" (sz :: data_bytes sz seed)]) /\
+        is_tail sz = false /\
+        Inv g (mkA (segs a) (pv a) (mkL cbx f r (CRec sz))) tr /\
+        nth_error (vpushed tr) (npopped tr) = Some (sz, seed)).
+  Proof.
+    intros I Hcv Hcbx H8 Hct. pose proof I as I'. destruct I'. rewrite Hcv in *.
+    cbn [lv_loc lv_mine lv_rem lv_ph] in *. subst f.
+    pose proof cap_pos as Hc. pose proof cap_small as Hcs.
+    assert (Hcb : cbx <= v_back g) by (destruct Hcbx; subst; lia).
+    assert (Hf0 : 0 <= v_front g) by lia.
+    destruct (segs a) as [|s rest] eqn:Hsegs; [cbn [segs_len] in j_len0; lia|].
+    cbn [lay] in j_lay0. destruct j_lay0 as (Hs & Hr).
+    unfold vf_read. rewrite (idx_mod exp2 cap (v_front g) Hcap Hf0).
+    destruct s as [sz seed|t]; cbn [seg_ok] in Hs.
+    - right. destruct Hs as (S1 & S2 & S3 & S4 & S5). exists sz, seed.
+      assert (Hnt : is_tail sz = false) by (apply is_tail_small; unfold top_bit; lia).
+      rewrite S4, Hnt, andb_false_r. replace (Z.leb sz cap) with true by (symmetry; apply Z.leb_le; lia).
+      rewrite S5. split; [reflexivity|]. split; [reflexivity|]. split.
+      + rewrite <- Hsegs. apply Inv_c_view; auto; cbn [lv_loc lv_mine lv_rem lv_ph]; [rewrite Hcv; cbn; tauto|].
+        unfold cph_ok. cbn [lv_loc lv_ph]. split; [lia|]. rewrite Hsegs. eauto.
+      + destruct j_recs0 as (R1 & R2). cbn [recs_of] in R1. symmetry in R1.
+        destruct (skipn_cons_nth _ _ _ _ R1) as (K1 & _). exact K1.
+    - left. destruct Hs as (T1 & T2 & T3 & T4 & T5). exists t.
+      destruct ct; [|specialize (Hct eq_refl); lia].
+      assert (Hit : is_tail (make_tail (t - 8)) = true) by (apply is_tail_make_tail; unfold top_bit; lia).
+      rewrite T5, Hit. cbn [andb]. split; [reflexivity|]. split; [reflexivity|]. split; [reflexivity|].
+      rewrite <- Hsegs. apply Inv_c_view; auto; cbn [lv_loc lv_mine lv_rem lv_ph]; [rewrite Hcv; cbn; tauto|].
+      unfold cph_ok. cbn [lv_loc lv_ph]. split; [lia|]. rewrite Hsegs. eauto.
+  Qed.
+
+  Lemma Phi_vfront_ok tr t sz seed :
+    nth_error (vpushed tr) (npopped tr) = Some (sz, seed) ->
+    Phi tr t (EvCli "vfront_ok" (sz :: data_bytes sz seed)).
+  Proof. intros H. cbn. repeat split; intros; try discriminate. eauto. Qed.
+
+  Lemma Phi_vfront_null g a tr t :
+    Inv g a tr -> v_back g - v_front g < 8 -> Phi tr t (EvCli "vfront_null" []).
+  Proof.
+    intros I H. destruct I. cbn. repeat split; intros; try discriminate.
+    destruct (segs_len_nonneg _ _ _ j_lay0) as (N1 & N2 & N3).
+    assert (segs_len (segs a) = 0).
+    { pose proof (Z.div_mod (segs_len (segs a)) 8 ltac:(lia)). lia. }
+    rewrite (N2 H1) in j_recs0. cbn [recs_of] in j_recs0. destruct j_recs0 as (R1 & R2).
+    symmetry in R1. apply skipn_nil_len in R1. lia.
+  Qed.
+
+  Definition cstart (ph : phase) : Prop := ph = PIdle \/ exists sz, ph = CRec sz.
+
+  Definition Qf (r : Z) : Z * bool -> lview -> Prop :=
+    fun res l => exists f,
+      if snd res then exists sz, l = mkL (fst res) f r (CRec sz) else l = mkL (fst res) f r PIdle.
+  Definition Qc (r : Z) : Z -> lview -> Prop :=
+    fun cb l => exists f, l = mkL cb f r PIdle.
+
+  (** pop_front() on the record front() just returned *)
+  Lemma safe_vpop_rec cb f r sz :
+    safe 1 (vpop_front exp2 cap cb [EvCli "vpop_ok" []] [EvCli "vpop_fail" []]) (mkL cb f r (CRec sz)) (Qc r).
+  Proof.
+    unfold vpop_front. cbn [Conc.safe]. intros g a tr I Hv. cbn [view] in Hv.
+    pose proof I as I'. destruct I'. rewrite Hv in *. cbn [lv_loc lv_mine lv_rem lv_ph] in *.
+    unfold cph_ok in j_cph0. cbn [lv_loc lv_ph] in j_cph0. destruct j_cph0 as (C1 & seed & rest & C2).
+    pose proof cap_pos as Hc. pose proof cap_small as Hcs. subst f.
+    assert (Hf0 : 0 <= v_front g) by lia.
+    rewrite C2 in j_lay0. cbn [lay seg_ok] in j_lay0. destruct j_lay0 as ((S1 & S2 & S3 & S4 & S5) & _).
+    rewrite C2 in j_len0. cbn [segs_len seg_len] in j_len0.
+    destruct (segs_len_nonneg g rest (v_front g + rsz sz)) as (N1 & _ & _).
+    { pose proof (j_lay _ _ _ I) as L. rewrite C2 in L. cbn [lay] in L. apply L. }
+    unfold av_pop_ld_front.
+    assert (Hs : avail_lt cb (v_front g) 8 = false).
+    { unfold avail_lt. rewrite u64_small by lia. apply Z.ltb_ge. lia. }
+    rewrite Hs. cbn [fst snd hd]. rewrite Hs.
+    rewrite (idx_mod exp2 cap (v_front g) Hcap Hf0), S4.
+    rewrite untail_small by (unfold top_bit; lia). rewrite crs_eq by lia.
+    destruct (rsz_bounds sz ltac:(lia)) as (Q1 & Q2 & Q3).
+    rewrite u64_small by lia.
+    exists a. split; [rewrite tag1; apply Inv_acc; exact I|]. split; [apply frame_refl|].
+    cbn [view]. rewrite Hv.
+    cbn [Conc.safe]. intros g2 a2 tr2 I2 Hv2. cbn [view] in Hv2.
+    unfold av_pop_st_front. cbn [fst snd].
+    destruct (Inv_c_pop_rec g2 a2 (tr2 ++ [(1%nat, EvAcc KSt vobj_front true)]) cb (v_front g) r sz) as (seed2 & rest2 & E2 & I3).
+    { apply Inv_acc. exact I2. } { exact Hv2. }
+    exists (mkA rest2 (pv a2) (mkL cb (v_front g + rsz sz) r PIdle)).
+    split; [rewrite tag2; exact I3|]. split; [apply frame_c|]. cbn. eexists. reflexivity.
+  Qed.
+  (** the pop_front() inside front(), on a tail marker *)
+  Lemma safe_vpop_tail cb f r t :
+    safe 1 (vpop_front exp2 cap cb [] []) (mkL cb f r (CTail t))
+         (fun cb' l => cb' = cb /\ exists f', l = mkL cb f' r CZero).
+  Proof.
+    unfold vpop_front. cbn [Conc.safe]. intros g a tr I Hv. cbn [view] in Hv.
+    pose proof I as I'. destruct I'. rewrite Hv in *. cbn [lv_loc lv_mine lv_rem lv_ph] in *.
+    unfold cph_ok in j_cph0. cbn [lv_loc lv_ph] in j_cph0. destruct j_cph0 as (C1 & rest & C2).
+    pose proof cap_pos as Hc. pose proof cap_small as Hcs. subst f.
+    assert (Hf0 : 0 <= v_front g) by lia.
+    rewrite C2 in j_lay0. cbn [lay seg_ok] in j_lay0. destruct j_lay0 as ((T1 & T2 & T3 & T4 & T5) & Hr).
+    rewrite C2 in j_len0. cbn [segs_len seg_len] in j_len0.
+    destruct (segs_len_nonneg g rest _ Hr) as (N1 & _ & _).
+    unfold av_pop_ld_front.
+    assert (Hs : avail_lt cb (v_front g) 8 = false).
+    { unfold avail_lt. rewrite u64_small by lia. apply Z.ltb_ge. lia. }
+    rewrite Hs. cbn [fst snd hd]. rewrite Hs.
+    rewrite (idx_mod exp2 cap (v_front g) Hcap Hf0), T5.
+    pose proof (Z.mod_pos_bound (v_front g) cap ltac:(lia)) as Mf.
+    rewrite untail_make_tail by (unfold top_bit; lia).
+    rewrite calc_real_size_eq by (unfold two64; lia).
+    assert (Ht8 : (t - 8) mod 8 = 0).
+    { pose proof (Z.div_mod t 8 ltac:(lia)). replace (t - 8) with ((t / 8 - 1) * 8) by lia. apply Z_mod_mult. }
+    rewrite rsz_of_multiple by (lia || exact Ht8). replace (t - 8 + 8) with t by lia.
+    rewrite u64_small by lia.
+    exists a. split; [rewrite tag1; apply Inv_acc; exact I|]. split; [apply frame_refl|].
+    cbn [view]. rewrite Hv.
+    cbn [Conc.safe]. intros g2 a2 tr2 I2 Hv2. cbn [view] in Hv2.
+    unfold av_pop_st_front. cbn [fst snd].
+    destruct (Inv_c_pop_tail g2 a2 (tr2 ++ [(1%nat, EvAcc KSt vobj_front true)]) cb (v_front g) r t) as (rest2 & E2 & I3).
+    { apply Inv_acc. exact I2. } { exact Hv2. }
+    exists (mkA rest2 (pv a2) (mkL cb (v_front g + t) r CZero)).
+    split; [rewrite tag1; exact I3|]. split; [apply frame_c|]. cbn. split; [reflexivity|]. eexists. reflexivity.
+  Qed.
+
+  Lemma Inv_found_event g a tr k o sz seed :
+    Inv g a tr -> nth_error (vpushed tr) (npopped tr) = Some (sz, seed) ->
+    Inv g a (tr ++ Conc.tag 1 [EvAcc k o true; EvCli "vfront_ok" (sz :: data_bytes sz seed)]).
+  Proof.
+    intros I H. rewrite tag2. apply Inv_neutral; try reflexivity; [apply Inv_acc; exact I|].
+    apply Phi_vfront_ok. rewrite vpushed_snoc, npopped_snoc. cbn [vpush_rec vpop_cnt].
+    rewrite app_nil_r, Nat.add_0_r. exact H.
+  Qed.
+
+  (** reads after the tail skip: the segment at the start of the buffer is a record *)
+  Lemma found_step_false g a tr cb0 f r ph0 cbx k o :
+    Inv g a tr -> cv a = mkL cb0 f r ph0 -> (cbx = cb0 \/ cbx = v_back g) -> f + 8 <= cbx -> f mod cap = 0 ->
+    exists a', Inv g a' (tr ++ Conc.tag 1 (EvAcc k o true :: snd (vf_read exp2 cap false g f))) /\
+               Conc.frame view 1 a a' /\ Qf r (cbx, true) (view a' 1).
+  Proof.
+    intros I Hcv Hcbx H8 Hz.
+    destruct (front_found g a tr cb0 f r ph0 cbx false I Hcv Hcbx H8 (fun _ => Hz))
+      as [(t & Hct & _)|(sz & seed & E & Hnt & I2 & Hn)]; [discriminate|].
+    rewrite E. cbn [snd].
+    exists (mkA (segs a) (pv a) (mkL cbx f r (CRec sz))). split; [|split; [apply frame_c|]].
+    - apply Inv_found_event; assumption.
+    - cbn. exists f, sz. reflexivity.
+  Qed.
+
+  Lemma safe_after_tail_F cb f r :
+    safe 1 (Act (av_front_ld_back exp2 cap f false) (fun r2 =>
+              let cb' := fst r2 in if avail_lt cb' f 8 then Ret (cb', false) else Ret (cb', true)))
+         (mkL cb f r CZero) (Qf r).
+  Proof.
+    cbn [Conc.safe]. intros g a tr I Hv. cbn [view] in Hv.
+    pose proof I as I'. destruct I'. rewrite Hv in *. cbn [lv_loc lv_mine lv_rem lv_ph] in *.
+    unfold cph_ok in j_cph0. cbn [lv_ph] in j_cph0. subst f.
+    unfold av_front_ld_back.
+    assert (Hrng : 0 <= v_back g - v_front g < two64) by lia.
+    destruct (avail_lt (v_back g) (v_front g) 8) eqn:Hs; pose proof Hs as Hs0.
+    - apply avail_lt_true in Hs; [|exact Hrng]. cbn [fst snd]. rewrite Hs0.
+      exists (mkA (segs a) (pv a) (mkL (v_back g) (v_front g) r PIdle)).
+      split; [|split; [apply frame_c|]].
+      + rewrite tag2. apply Inv_neutral; try reflexivity.
+        * apply Inv_acc. apply Inv_c_view; auto; cbn [lv_loc lv_mine lv_ph]; try tauto; try (unfold cph_ok; cbn; exact Logic.I).
+        * eapply Phi_vfront_null; [apply Inv_acc; exact I|exact Hs].
+      + cbn. eexists. reflexivity.
+    - apply avail_lt_false in Hs; [|exact Hrng].
+      destruct (found_step_false g a tr cb (v_front g) r CZero (v_back g) KLd vobj_back I Hv) as (a' & I2 & F2 & Q2);
+        [tauto|lia|exact j_cph0|].
+      destruct (vf_read exp2 cap false g (v_front g)) as [vals es]. cbn [fst snd] in *. rewrite Hs0.
+      exists a'. split; [exact I2|]. split; [exact F2|exact Q2].
+  Qed.
+
+  Lemma safe_after_tail cb f r :
+    safe 1 (vfront_after_tail exp2 cap cb) (mkL cb f r CZero) (Qf r).
+  Proof.
+    unfold vfront_after_tail. cbn [Conc.safe]. intros g a tr I Hv. cbn [view] in Hv.
+    pose proof I as I'. destruct I'. rewrite Hv in *. cbn [lv_loc lv_mine lv_rem lv_ph] in *.
+    unfold cph_ok in j_cph0. cbn [lv_ph] in j_cph0. subst f.
+    unfold av_front_ld_front.
+    assert (Hrng : 0 <= cb - v_front g < two64) by lia.
+    destruct (avail_lt cb (v_front g) 8) eqn:Hs; pose proof Hs as Hs0.
+    - cbn [fst snd]. rewrite Hs0.
+      exists a. split; [rewrite tag1; apply Inv_acc; exact I|]. split; [apply frame_refl|].
+      cbn [view]. rewrite Hv. apply safe_after_tail_F.
+    - apply avail_lt_false in Hs; [|exact Hrng].
+      destruct (found_step_false g a tr cb (v_front g) r CZero cb KLd vobj_front I Hv) as (a' & I2 & F2 & Q2);
+        [tauto|lia|exact j_cph0|].
+      destruct (vf_read exp2 cap false g (v_front g)) as [vals es]. cbn [fst snd] in *. rewrite Hs0.
+      exists a'. split; [exact I2|]. split; [exact F2|exact Q2].
+  Qed.
+
+  (** first reads of front(): a record, or a tail marker to be skipped *)
+  Lemma found_step_true g a tr cb0 f r ph0 cbx k o :
+    Inv g a tr -> cv a = mkL cb0 f r ph0 -> (cbx = cb0 \/ cbx = v_back g) -> f + 8 <= cbx ->
+    exists a', Inv g a' (tr ++ Conc.tag 1 (EvAcc k o true :: snd (vf_read exp2 cap true g f))) /\
+               Conc.frame view 1 a a' /\
+               safe 1 (vfront_tail_or_ret exp2 cap cbx (fst (vf_read exp2 cap true g f))) (view a' 1) (Qf r).
+  Proof.
+    intros I Hcv Hcbx H8.
+    destruct (front_found g a tr cb0 f r ph0 cbx true I Hcv Hcbx H8 ltac:(intros; discriminate))
+      as [(t & _ & E & Hit & I2)|(sz & seed & E & Hnt & I2 & Hn)]; rewrite E; cbn [fst snd].
+    - exists (mkA (segs a) (pv a) (mkL cbx f r (CTail t))). split; [|split; [apply frame_c|]].
+      + rewrite tag1. apply Inv_acc. exact I2.
+      + cbn [view cv]. unfold vfront_tail_or_ret. cbn [hd]. rewrite Hit.
+        apply Conc.safe_bind. eapply Conc.safe_weaken; [|apply safe_vpop_tail].
+        intros cb' l (-> & f' & ->). apply safe_after_tail.
+    - exists (mkA (segs a) (pv a) (mkL cbx f r (CRec sz))). split; [|split; [apply frame_c|]].
+      + apply Inv_found_event; assumption.
+      + cbn [view cv]. unfold vfront_tail_or_ret. cbn [hd]. rewrite Hnt. cbn. exists f, sz. reflexivity.
+  Qed.
+
+  Lemma safe_vfront_B cb f r :
+    safe 1 (Act (av_front_ld_back exp2 cap f true) (fun r2 =>
+              let cb' := fst r2 in
+              if avail_lt cb' f 8 then Ret (cb', false) else vfront_tail_or_ret exp2 cap cb' (snd r2)))
+         (mkL cb f r PIdle) (Qf r).
+  Proof.
+    cbn [Conc.safe]. intros g a tr I Hv. cbn [view] in Hv.
+    pose proof I as I'. destruct I'. rewrite Hv in *. cbn [lv_loc lv_mine lv_rem lv_ph] in *. subst f.
+    unfold av_front_ld_back.
+    assert (Hrng : 0 <= v_back g - v_front g < two64) by lia.
+    destruct (avail_lt (v_back g) (v_front g) 8) eqn:Hs; pose proof Hs as Hs0.
+    - apply avail_lt_true in Hs; [|exact Hrng]. cbn [fst snd]. rewrite Hs0.
+      exists (mkA (segs a) (pv a) (mkL (v_back g) (v_front g) r PIdle)).
+      split; [|split; [apply frame_c|]].
+      + rewrite tag2. apply Inv_neutral; try reflexivity.
+        * apply Inv_acc. apply Inv_c_view; auto; cbn [lv_loc lv_mine lv_ph]; try tauto; try (unfold cph_ok; cbn; exact Logic.I).
+        * eapply Phi_vfront_null; [apply Inv_acc; exact I|exact Hs].
+      + cbn. eexists. reflexivity.
+    - apply avail_lt_false in Hs; [|exact Hrng].
+      destruct (found_step_true g a tr cb (v_front g) r PIdle (v_back g) KLd vobj_back I Hv) as (a' & I2 & F2 & S2);
+        [tauto|lia|].
+      destruct (vf_read exp2 cap true g (v_front g)) as [vals es]. cbn [fst snd] in *. rewrite Hs0.
+      exists a'. split; [exact I2|]. split; [exact F2|exact S2].
+  Qed.
+
+  Lemma safe_vfront cb f r ph :
+    cstart ph -> safe 1 (vfront exp2 cap cb) (mkL cb f r ph) (Qf r).
+  Proof.
+    intros Hph. unfold vfront. cbn [Conc.safe]. intros g a tr I Hv. cbn [view] in Hv.
+    pose proof I as I'. destruct I'. rewrite Hv in *. cbn [lv_loc lv_mine lv_rem lv_ph] in *. subst f.
+    unfold av_front_ld_front.
+    assert (Hrng : 0 <= cb - v_front g < two64) by lia.
+    destruct (avail_lt cb (v_front g) 8) eqn:Hs; pose proof Hs as Hs0.
+    - cbn [fst snd]. rewrite Hs0.
+      exists (mkA (segs a) (pv a) (mkL cb (v_front g) r PIdle)).
+      split; [|split; [apply frame_c|]].
+      + rewrite tag1. apply Inv_acc. apply Inv_c_view; auto; cbn [lv_loc lv_mine lv_ph]; try (rewrite Hv; cbn; tauto); try (unfold cph_ok; cbn; exact Logic.I).
+      + cbn [view cv]. apply safe_vfront_B.
+    - apply avail_lt_false in Hs; [|exact Hrng].
+      destruct (found_step_true g a tr cb (v_front g) r ph cb KLd vobj_front I Hv) as (a' & I2 & F2 & S2);
+        [tauto|lia|].
+      destruct (vf_read exp2 cap true g (v_front g)) as [vals es]. cbn [fst snd] in *. rewrite Hs0.
+      exists a'. split; [exact I2|]. split; [exact F2|exact S2].
+  Qed.
+
+  (** *** client programs *)
+  Lemma safe_emit t e (k : progv Z) l (Q : Z -> lview -> Prop) :
+    vpush_rec e = [] -> vpop_cnt e = 0%nat -> (forall tr, Phi tr t e) ->
+    safe t k l Q -> safe t (Emit [e] k) l Q.
+  Proof.
+    intros E1 E2 HP Hk. cbn [Conc.safe]. intros g a tr I Hv. exists a.
+    split; [rewrite tag1; apply Inv_neutral; auto|]. split; [apply frame_refl|]. rewrite Hv. exact Hk.
+  Qed.
+
+  Definition cost (o : vpop_) : Z := match o with VPush size _ => rsz size + cap end.
+  Fixpoint volv (os : list vpop_) : Z := match os with [] => 0 | o :: r => cost o + volv r end.
+
+  Lemma cost_nonneg o : vop_ok cap o = true -> 0 <= cost o.
+  Proof.
+    destruct o as [size seed]. cbn. intros H. apply andb_prop in H. destruct H as [H _].
+    apply andb_prop in H. destruct H as [H1 _]. apply Z.leb_le in H1.
+    destruct (rsz_bounds size ltac:(lia)). pose proof cap_pos. lia.
+  Qed.
+
+  Lemma volv_nonneg os : forallb (vop_ok cap) os = true -> 0 <= volv os.
+  Proof.
+    induction os as [|o r IH]; cbn [volv forallb]; [lia|]. intros H. apply andb_prop in H. destruct H as [H1 H2].
+    pose proof (cost_nonneg o H1). specialize (IH H2). lia.
+  Qed.
+
+  Lemma safe_run_vpop pf b R o :
+    vop_ok cap o = true -> cost o <= R ->
+    safe 0 (run_vpop exp2 cap pf o) (mkL pf b R PIdle) (fun r l => Qp (R - cost o) r l).
+  Proof.
+    destruct o as [size seed]. cbn [vop_ok cost run_vpop]. intros H HR.
+    apply andb_prop in H. destruct H as [H H3]. apply andb_prop in H. destruct H as [H1 H2].
+    apply Z.leb_le in H1, H2, H3. rewrite crs_eq in H3 by lia.
+    apply safe_emit; try reflexivity; [intros tr; apply Phi_trivial; discriminate|].
+    apply safe_vpush; lia.
+  Qed.
+
+  Lemma safe_run_vpops os : forall pf b R,
+    forallb (vop_ok cap) os = true -> volv os <= R ->
+    safe 0 (run_vpops exp2 cap pf os) (mkL pf b R PIdle) (@Conc.QTrue lview).
+  Proof.
+    induction os as [|o r IH]; intros pf b R Hok HR; cbn [run_vpops volv forallb] in *; [exact Logic.I|].
+    apply andb_prop in Hok. destruct Hok as [H1 H2]. pose proof (volv_nonneg r H2) as Hr.
+    apply Conc.safe_bind. eapply Conc.safe_weaken; [|apply safe_run_vpop; [exact H1|lia]].
+    intros pf' l' (b' & R' & -> & HR'). apply IH; [exact H2|lia].
+  Qed.
+
+  Definition Qcs (r : Z) : Z -> lview -> Prop :=
+    fun cb l => exists f ph, l = mkL cb f r ph /\ cstart ph.
+
+  Lemma safe_run_vcop cb f r ph o :
+    cstart ph -> safe 1 (run_vcop exp2 cap cb o) (mkL cb f r ph) (Qcs r).
+  Proof.
+    intros Hph. destruct o; cbn [run_vcop].
+    - apply safe_emit; try reflexivity; [intros tr; apply Phi_trivial; discriminate|].
+      apply Conc.safe_bind. eapply Conc.safe_weaken; [|apply safe_vfront; exact Hph].
+      intros [cb' found] l' (f' & H). cbn [fst snd] in *. cbn. destruct found.
+      + destruct H as (sz & ->). exists f', (CRec sz). split; [reflexivity|right; eauto].
+      + subst l'. exists f', PIdle. split; [reflexivity|left; reflexivity].
+    - apply safe_emit; try reflexivity; [intros tr; apply Phi_trivial; discriminate|].
+      apply Conc.safe_bind. eapply Conc.safe_weaken; [|apply safe_vfront; exact Hph].
+      intros [cb' found] l' (f' & H). cbn [fst snd] in *. destruct found.
+      + destruct H as (sz & ->). eapply Conc.safe_weaken; [|apply safe_vpop_rec].
+        intros cb2 l2 (f2 & ->). exists f2, PIdle. split; [reflexivity|left; reflexivity].
+      + subst l'. cbn. exists f', PIdle. split; [reflexivity|left; reflexivity].
+  Qed.
+
+  Lemma safe_run_vcops os : forall cb f r ph,
+    cstart ph -> safe 1 (run_vcops exp2 cap cb os) (mkL cb f r ph) (@Conc.QTrue lview).
+  Proof.
+    induction os as [|o rest IH]; intros cb f r ph Hph; cbn [run_vcops]; [exact Logic.I|].
+    apply Conc.safe_bind. eapply Conc.safe_weaken; [|apply safe_run_vcop; exact Hph].
+    intros cb' l' (f' & ph' & -> & Hph'). apply IH. exact Hph'.
+  Qed.
+
+  Lemma safe_begin t (k : Conc.thread GV V ev) l :
+    safe t k l (@Conc.QTrue lview) -> safe t (Act av_begin (fun _ => k)) l (@Conc.QTrue lview).
+  Proof.
+    intros Hk. cbn [Conc.safe]. intros g a tr I Hv. unfold av_begin. cbn [fst snd].
+    exists a. split; [rewrite tag1; apply Inv_acc; exact I|]. split; [apply frame_refl|].
+    rewrite Hv. exact Hk.
+  Qed.
+
+  Lemma vinit_ok pos cos :
+    forallb (vop_ok cap) pos = true -> volv pos + cap < two64 ->
+    Conc.cfg_ok view Inv (vinit_cfg exp2 cap pos cos).
+  Proof.
+    intros Hok Hvol. pose proof (volv_nonneg pos Hok) as Hp. pose proof cap_pos as Hc.
+    exists (mkA [] (mkL 0 0 (volv pos) PIdle) (mkL 0 0 0 PIdle)). split.
+    - unfold two64 in *. cbn. constructor; try apply hist_ok_nil; cbn; try lia; try reflexivity; try exact Logic.I;
+        try (exists [], []; split; reflexivity); try (split; [reflexivity|lia]); try (intros f b size []).
+    - intros t p Hp'. cbn [vinit_cfg Conc.threads] in Hp'.
+      destruct t as [|[|t]]; cbn in Hp'.
+      + inversion Hp'; subst p. unfold vproducer. apply safe_begin. apply safe_run_vpops; [exact Hok|lia].
+      + inversion Hp'; subst p. unfold vconsumer. apply safe_begin. apply safe_run_vcops. left. reflexivity.
+      + destruct t; discriminate.
+  Qed.
+
+  Lemma reach_Inv pos cos c :
+    forallb (vop_ok cap) pos = true -> volv pos + cap < two64 ->
+    Conc.reach (vinit_cfg exp2 cap pos cos) c ->
+    exists a, Inv (Conc.shared c) a (Conc.trace c).
+  Proof. intros Hok Hvol Hr. eapply Conc.reach_Inv; [apply vinit_ok; eauto|exact Hr]. Qed.
 
 End RingV.
+
+(** ** the theorems: every capacity that is a multiple of 8 (a power of two when the mask is used), every
+       sequence of record sizes with 1 <= size, real size <= capacity, EVERY schedule *)
+Section Theorems.
+  Variables (exp2 : bool) (cap : Z) (pos : list vpop_) (cos : list vcop) (c : Conc.config GV V ev).
+  Hypothesis Hcapv : capv_ok exp2 cap = true.
+  Hypothesis Hops : forallb (vop_ok cap) pos = true.
+  Hypothesis Hvol : volv cap pos + cap < two64.
+  Hypothesis Hreach : Conc.reach (vinit_cfg exp2 cap pos cos) c.
+
+  (** every record front() returns is the oldest pushed-and-not-popped record, size and bytes *)
+  Theorem ringv_record_exact :
+    forall tr1 t args tr2, Conc.trace c = tr1 ++ (t, EvCli "vfront_ok" args) :: tr2 ->
+      exists size seed, nth_error (vpushed tr1) (npopped tr1) = Some (size, seed) /\
+                        args = size :: data_bytes size seed.
+  Proof.
+    destruct (reach_Inv exp2 cap Hcapv pos cos c Hops Hvol Hreach) as (a & I). destruct I.
+    intros tr1 t args tr2 E. specialize (j_hist0 _ _ _ _ E). cbn in j_hist0.
+    destruct j_hist0 as (H & _). apply H. reflexivity.
+  Qed.
+
+  Theorem ringv_front_null_only_if_empty :
+    forall tr1 t tr2, Conc.trace c = tr1 ++ (t, EvCli "vfront_null" []) :: tr2 ->
+      List.length (vpushed tr1) = npopped tr1.
+  Proof.
+    destruct (reach_Inv exp2 cap Hcapv pos cos c Hops Hvol Hreach) as (a & I). destruct I.
+    intros tr1 t tr2 E. specialize (j_hist0 _ _ _ _ E). cbn in j_hist0.
+    destruct j_hist0 as (_ & H & _). apply H. reflexivity.
+  Qed.
+
+  Theorem ringv_pop_front_after_front_succeeds :
+    forall tr1 t args tr2, Conc.trace c <> tr1 ++ (t, EvCli "vpop_fail" args) :: tr2.
+  Proof.
+    destruct (reach_Inv exp2 cap Hcapv pos cos c Hops Hvol Hreach) as (a & I). destruct I.
+    intros tr1 t args tr2 E. specialize (j_hist0 _ _ _ _ E). cbn in j_hist0.
+    destruct j_hist0 as (_ & _ & H). apply H. reflexivity.
+  Qed.
+
+  (** the producer never wrote outside the buffer nor on a byte of [front_, back_) *)
+  Theorem ringv_no_overlap : v_wbad (Conc.shared c) = false.
+  Proof.
+    destruct (reach_Inv exp2 cap Hcapv pos cos c Hops Hvol Hreach) as (a & I). destruct I. exact j_wbad0.
+  Qed.
+
+  (** back( size ) failed only when, at the deciding access, free space < real size, or the record does not fit
+      before the end of the buffer and free space minus that unusable tail < real size *)
+  Theorem ringv_push_fails_only_if_no_contiguous_space :
+    forall f b size, In (f, b, size) (v_fails (Conc.shared c)) -> fail_cond cap f b size.
+  Proof.
+    destruct (reach_Inv exp2 cap Hcapv pos cos c Hops Hvol Hreach) as (a & I). destruct I. exact j_fails0.
+  Qed.
+
+  Theorem ringv_counters :
+    0 <= v_front (Conc.shared c) <= v_back (Conc.shared c) /\
+    v_back (Conc.shared c) <= v_front (Conc.shared c) + cap /\
+    v_back (Conc.shared c) mod 8 = 0 /\
+    (npopped (Conc.trace c) <= List.length (vpushed (Conc.trace c)))%nat.
+  Proof.
+    destruct (reach_Inv exp2 cap Hcapv pos cos c Hops Hvol Hreach) as (a & I). destruct I.
+    destruct j_recs0. repeat split; try lia; try exact j_align0.
+  Qed.
+End Theorems.
